@@ -15,11 +15,16 @@ import (
 	"fmt"
 	"math/rand"
 	"os"
+	"errors"
+	"path/filepath"
 	"sort"
 	"strconv"
 	"strings"
+	"sync"
 	"testing"
 	"time"
+
+	"github.com/pgavlin/dawn/internal/vcs"
 
 	"github.com/pgavlin/dawn/internal/project"
 	"golang.org/x/mod/module"
@@ -46,7 +51,32 @@ type vCase struct {
 	ID    string    `json:"id"`
 	U     vUniverse `json:"u"`
 	Roots []string  `json:"roots"`
+	Names []string  `json:"names,omitempty"` // requirement names of the roots (default r<i>)
 	Ops   []vOp     `json:"ops"`
+}
+
+// linkRepository is a fake repository whose fetched trees also contain a symbolic link
+// (real repositories do); everything else is delegated.
+type linkRepository struct {
+	*testRepository
+}
+
+func (r linkRepository) FetchRevision(ctx context.Context, projectPath string, revision vcs.Revision, destDir string) error {
+	if err := r.testRepository.FetchRevision(ctx, projectPath, revision, destDir); err != nil {
+		return err
+	}
+	dir := filepath.Join(destDir, filepath.FromSlash(projectPath))
+	os.WriteFile(filepath.Join(dir, "README"), []byte("x"), 0644)
+	return os.Symlink("README", filepath.Join(dir, "A-link"))
+}
+
+type linkDialer struct{ d testDialer }
+
+func (d linkDialer) dialRepository(ctx context.Context, kind, address string) (vcs.Repository, error) {
+	if r, ok := d.d.repos[address]; ok {
+		return linkRepository{r}, nil
+	}
+	return nil, errors.New("unreachable")
 }
 
 // node "a/3" or "a@v2/1" -> module version
@@ -91,12 +121,16 @@ func vDialer(u *vUniverse) testDialer {
 	return testDialer{repos: map[string]*testRepository{vRepo: {path: vRepo, defaultRef: "main", refs: refs, head: testRevisions(revs)}}}
 }
 
-func vRootConfig(roots []string, rnd *rand.Rand) *project.Config {
+func vRootConfig(roots, names []string, rnd *rand.Rand) *project.Config {
 	c := &project.Config{Name: "root", Requirements: map[string]project.RequirementConfig{}}
 	idx := rnd.Perm(len(roots))
 	for _, i := range idx {
 		m := vModule(roots[i])
-		c.Requirements[fmt.Sprintf("r%d", i)] = project.RequirementConfig{Path: m.Path, Version: m.Version}
+		name := fmt.Sprintf("r%d", i)
+		if i < len(names) && names[i] != "" {
+			name = names[i]
+		}
+		c.Requirements[name] = project.RequirementConfig{Path: m.Path, Version: m.Version}
 	}
 	return c
 }
@@ -186,6 +220,7 @@ func TestVerifMVS(t *testing.T) {
 		dialer := vDialer(&c.U)
 		cache := t.TempDir()
 		var events []map[string]any
+		var dl Dialer = dialer
 		resolve := func(variant string, dir string) {
 			ev := map[string]any{"ev": "BuildList", "roots": c.Roots, "result": map[string]int{}, "err": "", "variant": variant}
 			guard(func() {
@@ -194,7 +229,7 @@ func TestVerifMVS(t *testing.T) {
 						ev["err"] = "panic:" + fmt.Sprint(p)
 					}
 				}()
-				bl, err := BuildList(ctx, vRootConfig(c.Roots, rnd), NewResolver(dir, dialer, nil))
+				bl, err := BuildList(ctx, vRootConfig(c.Roots, c.Names, rnd), NewResolver(dir, dl, nil))
 				if err != nil {
 					ev["err"] = err.Error()
 					return
@@ -219,8 +254,54 @@ func TestVerifMVS(t *testing.T) {
 		resolve("cold cache", cache)
 		resolve("warm cache, new resolver, other declaration order", cache)
 		resolve("cold cache again", t.TempDir())
+		// fetched trees that contain a symbolic link, cold then warm
+		dl = linkDialer{dialer}
+		ldir := t.TempDir()
+		resolve("cold cache, fetched trees contain a symbolic link", ldir)
+		resolve("warm cache after fetching trees with a symbolic link", ldir)
+		dl = dialer
+		// two resolvers filling one cold cache at the same time
+		if !timedOut {
+			cdir := t.TempDir()
+			var wg sync.WaitGroup
+			var mu sync.Mutex
+			for k := 0; k < 2; k++ {
+				wg.Add(1)
+				go func(k int) {
+					defer wg.Done()
+					ev := map[string]any{"ev": "BuildList", "roots": c.Roots, "result": map[string]int{}, "err": "", "variant": fmt.Sprintf("concurrent resolver %d on a shared cold cache", k)}
+					func() {
+						defer func() {
+							if p := recover(); p != nil {
+								ev["err"] = "panic:" + fmt.Sprint(p)
+							}
+						}()
+						bl, err := BuildList(ctx, vRootConfig(c.Roots, c.Names, rand.New(rand.NewSource(int64(k)))), NewResolver(cdir, dialer, nil))
+						if err != nil {
+							ev["err"] = err.Error()
+							return
+						}
+						res := map[string]int{}
+						for p, v := range bl {
+							if p == "" {
+								continue
+							}
+							node := vNode(module.Version{Path: p, Version: v})
+							i := strings.LastIndexByte(node, '/')
+							n, _ := strconv.Atoi(node[i+1:])
+							res[node[:i]] = n
+						}
+						ev["result"] = res
+					}()
+					mu.Lock()
+					events = append(events, ev)
+					mu.Unlock()
+				}(k)
+			}
+			wg.Wait()
+		}
 		for _, op := range c.Ops {
-			root := vRootConfig(c.Roots, rnd)
+			root := vRootConfig(c.Roots, c.Names, rnd)
 			ev := map[string]any{"ev": "Op", "kind": op.Kind, "path": op.Path, "q": op.Q, "before": vReqsJSON(root.Requirements),
 				"after": map[string]string{}, "again": map[string]string{}, "err": "", "expect_ok": op.Kind != "get"}
 			if timedOut {
